@@ -151,6 +151,9 @@ class FieldBase(metaclass=ABCMeta):
                 raise ValueError(msg)
             # actually set the data
             self.__data_full = value
+            # cached helpers (e.g., interpolators) are bound to the memory of the old
+            # array and need to be created again
+            self._cache_methods: dict[str, Any] = {}
 
         else:
             msg = f"Cannot set field values to {value}"
